@@ -93,7 +93,10 @@ def run(ctx):
         # model predictions (cheap: no ring arithmetic)
         ml = ['bootp %d %d %s %s %d' % (N, n, fmt(s), fmt(a), b) for (a, b, mu, kind) in cases]
         mo = vlib.run_model(ml, 'fast', timeout=1800)
-        il = ['fullcase %s %d %d %s %d' % (spec, mu, (vmask if (i % 4 == 0 or kind.startswith('aimed') or kind.startswith('mask ties')) else (vmask & 5) or 1), fmt(a), b) for i, (a, b, mu, kind) in enumerate(cases)]
+        # (bit 16 of the variant mask, on three cases per key set: the same bootstrappings through a stand-alone FFT key whose source
+        #  LweBootstrappingKey has been re-keyed and deleted)
+        standalone = set(rng.sample(range(len(cases)), min(3, len(cases))))
+        il = ['fullcase %s %d %d %s %d' % (spec, mu, (vmask if (i % 4 == 0 or kind.startswith('aimed') or kind.startswith('mask ties')) else (vmask & 5) or 1) + (16 if i in standalone else 0), fmt(a), b) for i, (a, b, mu, kind) in enumerate(cases)]
         io = vlib.run_lines(exe, il, timeout=7200)
         for (a, b, mu, kind), line, o, m in zip(cases, il, io, mo):
             ctx.count((spec, tuple(a[:8]), b, mu)); nfull += 1
